@@ -233,6 +233,7 @@ def loop_carried_counter(prog, bi, id_operand, counter_cell, nxt, new_bb):
         if not any(bi.cfg.dominates(sb, new_bb) and set(bi.cfg.in_loop(sb)) == set(loops) for sb in step_bbs):
             if bi.cfg.path(s0, {new_bb}, avoid=step_bbs) is not None:
                 return "a path reaches the next hand-out without advancing the local counter"
+    step_before = any(bi.cfg.dominates(sb, new_bb) and set(bi.cfg.in_loop(sb)) == set(loops) for sb in step_bbs)
     # written back
     wbs = []
     for e in prog.effects(bi.body.id):
@@ -245,6 +246,12 @@ def loop_carried_counter(prog, bi, id_operand, counter_cell, nxt, new_bb):
     from props.c12 import error_blocks
     if bi.cfg.escapes(new_bb, set(wbs) | error_blocks(bi)) is not None:
         return "a path returns without storing the advanced value back into the lease counter"
+    if not step_before:
+        # the counter is advanced after the hand-out: then no path from a hand-out may reach the store-back without the advance
+        # (`if full { break }` placed before `next = next.next()` stores the id that was just handed out)
+        p = bi.cfg.path(new_bb, set(wbs), avoid=step_bbs)
+        if p is not None:
+            return "a path (e.g. the `break` of a full batch) stores the counter back without advancing it past the id just handed out: the next pull reuses that ack id"
     return True
 
 
